@@ -636,6 +636,11 @@ def plan_C13(prop, tier):
     # trivially copyable worlds with full fault injection (iterator faults) + W2 trivial
     jobs += w1_jobs(tier, grid(("TR", "INT"), W1_NS[tier], (1,)), G_ALL, 1)
     jobs += w2_jobs(tier, ("TR",), W2_PAIRS[tier], (-1, 0, 7), 1)
+    # C++20 widens the fast paths (std::contiguous_iterator): the trivial worlds again as C++20
+    for cfg in ((("TR", 2, 1), ("INT", 0, 0)) if tier == "quick" else (("TR", 2, 1), ("INT", 0, 0), ("TR", 0, 1), ("INT", 3, 0))):
+        for cxx in (("g++",) if tier == "quick" else ("g++", "clang++")):
+            b = rebuild_as(w1bin(*cfg), cxx, "20")
+            jobs.append(Job(b.name, b, svmc_args(tier, G_ALL, 1)))
     rep = run_svmc(prop, tier, jobs)
     if BUILD_ONLY or rep.get("harness_errors"):
         return rep
@@ -816,7 +821,18 @@ def plan_C17(prop, tier):
             if j.result.get("info_digest") != ref.result.get("info_digest"):
                 info_diffs += 1
             row["builds"].append({"compiler": bd[0], "std": bd[1], "disable_concepts": bd[2], "identical": same})
-            if not same and not j.result["violations"] and not ref.result["violations"]:
+            sig_ref = sorted((v["oracle"], v["op"]) for v in ref.result["violations"])
+            sig_j = sorted((v["oracle"], v["op"]) for v in j.result["violations"])
+            if sig_ref != sig_j:
+                only = [x for x in sig_j if x not in sig_ref] or [x for x in sig_ref if x not in sig_j]
+                rep["violations"].append({
+                    "oracle": "xstd.violations-differ", "op": "trace",
+                    "detail": "a defect is observable under one language standard / compiler only: %s appears with %s -std=c++%s%s but not with %s -std=c++%s (or vice versa)" % (
+                        "; ".join("[%s | %s]" % x for x in only[:3]), bd[0], bd[1], " -DGCH_DISABLE_CONCEPTS" if bd[2] else "", builds[0][0], builds[0][1]),
+                    "config": "%s: %s -std=c++%s vs %s -std=c++%s" % (ref.result["config"], builds[0][0], builds[0][1], bd[0], bd[1]),
+                    "count": 1, "desc": "violation signatures differ between builds",
+                    "replay": {"kind": "twin", "binaries": [bin_spec(ref.binary), bin_spec(j.binary)], "args": ref.args}})
+            elif not same:
                 detail, line = first_difference(ref, j, outdir)
                 rep["violations"].append({
                     "oracle": "xstd.trace-differs", "op": "trace",
